@@ -1,7 +1,11 @@
-//! Value generation for the field / argument types the program generator uses.
+//! Value generation for the field / argument types the program generator uses (`Gen`), and the
+//! harness's own account of what each Rust value is on the wire (`ToR`: Rust value -> reference
+//! value, written from the documentation of the impls, never through the library's codec).
 
-use std::collections::{BTreeMap, HashMap};
+use std::collections::{BTreeMap, BTreeSet, HashMap, VecDeque};
 use vcore::gen::*;
+use vcore::refmodel::sig::RSig;
+use vcore::refmodel::val::RVal;
 use vcore::src::Src;
 use zvariant::{OwnedObjectPath, OwnedValue, Value};
 
@@ -9,14 +13,30 @@ pub trait Gen: Sized {
     fn gen(src: &mut Src, fuel: &mut u32) -> Self;
 }
 
-macro_rules! int_gen {
-    ($($t:ty),*) => { $( impl Gen for $t { fn gen(src: &mut Src, _f: &mut u32) -> Self { gen_u64(src) as $t } } )* };
+pub trait ToR {
+    fn rsig() -> RSig;
+    fn to_r(&self) -> RVal;
 }
-int_gen!(u8, u16, u32, u64, i16, i32, i64);
+
+macro_rules! int_impl {
+    ($($t:ty => $v:ident),*) => { $(
+        impl Gen for $t { fn gen(src: &mut Src, _f: &mut u32) -> Self { gen_u64(src) as $t } }
+        impl ToR for $t { fn rsig() -> RSig { RSig::$v } fn to_r(&self) -> RVal { RVal::$v(*self) } }
+    )* };
+}
+int_impl!(u8 => Y, u16 => Q, u32 => U, u64 => T, i16 => N, i32 => I, i64 => X);
 
 impl Gen for bool {
     fn gen(src: &mut Src, _f: &mut u32) -> Self {
         src.bool()
+    }
+}
+impl ToR for bool {
+    fn rsig() -> RSig {
+        RSig::B
+    }
+    fn to_r(&self) -> RVal {
+        RVal::B(*self)
     }
 }
 impl Gen for f64 {
@@ -24,14 +44,51 @@ impl Gen for f64 {
         f64::from_bits(gen_f64(src, false))
     }
 }
+impl ToR for f64 {
+    fn rsig() -> RSig {
+        RSig::D
+    }
+    fn to_r(&self) -> RVal {
+        RVal::D(self.to_bits())
+    }
+}
 impl Gen for String {
     fn gen(src: &mut Src, _f: &mut u32) -> Self {
         gen_string(src)
     }
 }
+impl ToR for String {
+    fn rsig() -> RSig {
+        RSig::S
+    }
+    fn to_r(&self) -> RVal {
+        RVal::S(self.clone())
+    }
+}
+impl Gen for char {
+    fn gen(src: &mut Src, _f: &mut u32) -> Self {
+        *src.pick(&['a', 'Z', '0', ' ', 'é', '→', '日', '𝄞', '\u{7f}', '\u{1}', '\u{10ffff}'])
+    }
+}
+impl ToR for char {
+    fn rsig() -> RSig {
+        RSig::S
+    }
+    fn to_r(&self) -> RVal {
+        RVal::S(self.to_string())
+    }
+}
 impl Gen for OwnedObjectPath {
     fn gen(src: &mut Src, _f: &mut u32) -> Self {
         OwnedObjectPath::try_from(gen_object_path(src)).expect("valid path")
+    }
+}
+impl ToR for OwnedObjectPath {
+    fn rsig() -> RSig {
+        RSig::O
+    }
+    fn to_r(&self) -> RVal {
+        RVal::O(self.as_str().to_string())
     }
 }
 impl Gen for OwnedValue {
@@ -46,10 +103,125 @@ impl Gen for OwnedValue {
         OwnedValue::try_from(v).expect("owned value")
     }
 }
+/// (only the five shapes `Gen for OwnedValue` produces)
+fn value_to_r(v: &Value<'_>) -> (RSig, RVal) {
+    match v {
+        Value::U32(x) => (RSig::U, RVal::U(*x)),
+        Value::U16(x) => (RSig::Q, RVal::Q(*x)),
+        Value::U8(x) => (RSig::Y, RVal::Y(*x)),
+        Value::Str(s) => (RSig::S, RVal::S(s.as_str().to_string())),
+        Value::Bool(b) => (RSig::B, RVal::B(*b)),
+        Value::Array(a) => {
+            let items: Vec<(RSig, RVal)> = a.iter().map(value_to_r).collect();
+            let es = items.first().map(|x| x.0.clone()).unwrap_or(RSig::Y);
+            (RSig::A(Box::new(es.clone())), RVal::A(es, items.into_iter().map(|x| x.1).collect()))
+        }
+        Value::Structure(s) => {
+            let items: Vec<(RSig, RVal)> = s.fields().iter().map(value_to_r).collect();
+            (RSig::St(items.iter().map(|x| x.0.clone()).collect()), RVal::St(items.into_iter().map(|x| x.1).collect()))
+        }
+        other => panic!("harness: value shape {other:?} is not generated"),
+    }
+}
+impl ToR for OwnedValue {
+    fn rsig() -> RSig {
+        RSig::V
+    }
+    fn to_r(&self) -> RVal {
+        RVal::V(Box::new(value_to_r(self)))
+    }
+}
 impl Gen for () {
     fn gen(_src: &mut Src, _f: &mut u32) -> Self {}
 }
+impl ToR for () {
+    fn rsig() -> RSig {
+        RSig::St(vec![])
+    }
+    fn to_r(&self) -> RVal {
+        RVal::St(vec![])
+    }
+}
 
+// ---- std types with built-in impls -------------------------------------------------------------
+impl Gen for std::net::Ipv4Addr {
+    fn gen(src: &mut Src, _f: &mut u32) -> Self {
+        std::net::Ipv4Addr::from(src.u32())
+    }
+}
+impl ToR for std::net::Ipv4Addr {
+    fn rsig() -> RSig {
+        RSig::St(vec![RSig::Y; 4])
+    }
+    fn to_r(&self) -> RVal {
+        RVal::St(self.octets().iter().map(|b| RVal::Y(*b)).collect())
+    }
+}
+impl Gen for std::net::IpAddr {
+    fn gen(src: &mut Src, f: &mut u32) -> Self {
+        if src.bool() {
+            std::net::IpAddr::V4(Gen::gen(src, f))
+        } else {
+            let b = src.bytes(16);
+            let mut a = [0u8; 16];
+            a.copy_from_slice(&b);
+            std::net::IpAddr::V6(std::net::Ipv6Addr::from(a))
+        }
+    }
+}
+impl ToR for std::net::IpAddr {
+    fn rsig() -> RSig {
+        RSig::St(vec![RSig::U, RSig::A(Box::new(RSig::Y))])
+    }
+    fn to_r(&self) -> RVal {
+        let (i, o): (u32, Vec<u8>) = match self {
+            std::net::IpAddr::V4(a) => (0, a.octets().to_vec()),
+            std::net::IpAddr::V6(a) => (1, a.octets().to_vec()),
+        };
+        RVal::St(vec![RVal::U(i), RVal::A(RSig::Y, o.into_iter().map(RVal::Y).collect())])
+    }
+}
+impl Gen for std::time::Duration {
+    fn gen(src: &mut Src, _f: &mut u32) -> Self {
+        std::time::Duration::new(gen_u64(src) >> 1, (gen_u64(src) % 1_000_000_000) as u32)
+    }
+}
+impl ToR for std::time::Duration {
+    fn rsig() -> RSig {
+        RSig::St(vec![RSig::T, RSig::U])
+    }
+    fn to_r(&self) -> RVal {
+        RVal::St(vec![RVal::T(self.as_secs()), RVal::U(self.subsec_nanos())])
+    }
+}
+impl Gen for std::num::NonZeroU32 {
+    fn gen(src: &mut Src, _f: &mut u32) -> Self {
+        std::num::NonZeroU32::new((gen_u64(src) as u32).max(1)).unwrap()
+    }
+}
+impl ToR for std::num::NonZeroU32 {
+    fn rsig() -> RSig {
+        RSig::U
+    }
+    fn to_r(&self) -> RVal {
+        RVal::U(self.get())
+    }
+}
+impl Gen for std::num::Wrapping<i32> {
+    fn gen(src: &mut Src, _f: &mut u32) -> Self {
+        std::num::Wrapping(gen_u64(src) as i32)
+    }
+}
+impl ToR for std::num::Wrapping<i32> {
+    fn rsig() -> RSig {
+        RSig::I
+    }
+    fn to_r(&self) -> RVal {
+        RVal::I(self.0)
+    }
+}
+
+// ---- containers --------------------------------------------------------------------------------
 fn len(src: &mut Src, fuel: &mut u32) -> usize {
     if *fuel == 0 {
         return 0;
@@ -66,10 +238,67 @@ impl<T: Gen> Gen for Vec<T> {
         (0..n).map(|_| T::gen(src, fuel)).collect()
     }
 }
+impl<T: ToR> ToR for Vec<T> {
+    fn rsig() -> RSig {
+        RSig::A(Box::new(T::rsig()))
+    }
+    fn to_r(&self) -> RVal {
+        RVal::A(T::rsig(), self.iter().map(|x| x.to_r()).collect())
+    }
+}
+impl<T: Gen> Gen for VecDeque<T> {
+    fn gen(src: &mut Src, fuel: &mut u32) -> Self {
+        let n = len(src, fuel);
+        (0..n).map(|_| T::gen(src, fuel)).collect()
+    }
+}
+impl<T: ToR> ToR for VecDeque<T> {
+    fn rsig() -> RSig {
+        RSig::A(Box::new(T::rsig()))
+    }
+    fn to_r(&self) -> RVal {
+        RVal::A(T::rsig(), self.iter().map(|x| x.to_r()).collect())
+    }
+}
+impl<T: Gen + Ord> Gen for BTreeSet<T> {
+    fn gen(src: &mut Src, fuel: &mut u32) -> Self {
+        let n = len(src, fuel);
+        (0..n).map(|_| T::gen(src, fuel)).collect()
+    }
+}
+impl<T: ToR> ToR for BTreeSet<T> {
+    fn rsig() -> RSig {
+        RSig::A(Box::new(T::rsig()))
+    }
+    fn to_r(&self) -> RVal {
+        RVal::A(T::rsig(), self.iter().map(|x| x.to_r()).collect())
+    }
+}
+impl<T: Gen> Gen for Box<T> {
+    fn gen(src: &mut Src, fuel: &mut u32) -> Self {
+        Box::new(T::gen(src, fuel))
+    }
+}
+impl<T: ToR> ToR for Box<T> {
+    fn rsig() -> RSig {
+        T::rsig()
+    }
+    fn to_r(&self) -> RVal {
+        (**self).to_r()
+    }
+}
 impl<T: Gen> Gen for HashMap<String, T> {
     fn gen(src: &mut Src, fuel: &mut u32) -> Self {
         let n = len(src, fuel);
         (0..n).map(|i| (format!("k{i}{}", gen_member_name(src)), T::gen(src, fuel))).collect()
+    }
+}
+impl<T: ToR> ToR for HashMap<String, T> {
+    fn rsig() -> RSig {
+        RSig::Dict(Box::new(RSig::S), Box::new(T::rsig()))
+    }
+    fn to_r(&self) -> RVal {
+        RVal::Dict(RSig::S, T::rsig(), self.iter().map(|(k, v)| (k.to_r(), v.to_r())).collect())
     }
 }
 impl<K: Gen + Ord, T: Gen> Gen for BTreeMap<K, T> {
@@ -78,29 +307,41 @@ impl<K: Gen + Ord, T: Gen> Gen for BTreeMap<K, T> {
         (0..n).map(|_| (K::gen(src, fuel), T::gen(src, fuel))).collect()
     }
 }
-impl<A: Gen> Gen for (A,) {
-    fn gen(src: &mut Src, fuel: &mut u32) -> Self {
-        (A::gen(src, fuel),)
+impl<K: ToR, T: ToR> ToR for BTreeMap<K, T> {
+    fn rsig() -> RSig {
+        RSig::Dict(Box::new(K::rsig()), Box::new(T::rsig()))
+    }
+    fn to_r(&self) -> RVal {
+        RVal::Dict(K::rsig(), T::rsig(), self.iter().map(|(k, v)| (k.to_r(), v.to_r())).collect())
     }
 }
-impl<A: Gen, B: Gen> Gen for (A, B) {
-    fn gen(src: &mut Src, fuel: &mut u32) -> Self {
-        (A::gen(src, fuel), B::gen(src, fuel))
-    }
+macro_rules! tuple_impl {
+    ($($n:ident $i:tt),+) => {
+        impl<$($n: Gen),+> Gen for ($($n,)+) {
+            fn gen(src: &mut Src, fuel: &mut u32) -> Self { ($($n::gen(src, fuel),)+) }
+        }
+        impl<$($n: ToR),+> ToR for ($($n,)+) {
+            fn rsig() -> RSig { RSig::St(vec![$($n::rsig()),+]) }
+            fn to_r(&self) -> RVal { RVal::St(vec![$(self.$i.to_r()),+]) }
+        }
+    };
 }
-impl<A: Gen, B: Gen, C: Gen> Gen for (A, B, C) {
-    fn gen(src: &mut Src, fuel: &mut u32) -> Self {
-        (A::gen(src, fuel), B::gen(src, fuel), C::gen(src, fuel))
-    }
-}
-impl<A: Gen, B: Gen, C: Gen, D: Gen> Gen for (A, B, C, D) {
-    fn gen(src: &mut Src, fuel: &mut u32) -> Self {
-        (A::gen(src, fuel), B::gen(src, fuel), C::gen(src, fuel), D::gen(src, fuel))
-    }
-}
+tuple_impl!(A 0);
+tuple_impl!(A 0, B 1);
+tuple_impl!(A 0, B 1, C 2);
+tuple_impl!(A 0, B 1, C 2, D 3);
+
 impl<T: Gen> Gen for [T; 2] {
     fn gen(src: &mut Src, fuel: &mut u32) -> Self {
         [T::gen(src, fuel), T::gen(src, fuel)]
+    }
+}
+impl<T: ToR> ToR for [T; 2] {
+    fn rsig() -> RSig {
+        RSig::St(vec![T::rsig(), T::rsig()])
+    }
+    fn to_r(&self) -> RVal {
+        RVal::St(vec![self[0].to_r(), self[1].to_r()])
     }
 }
 impl<T: Gen> Gen for Option<T> {
@@ -113,11 +354,19 @@ impl<T: Gen> Gen for Option<T> {
     }
 }
 
+/// the arguments of a message body a value stands for: the fields of a structure, else the value
+pub fn body_of<R: ToR>(r: &R) -> Vec<RVal> {
+    match r.to_r() {
+        RVal::St(f) => f,
+        x => vec![x],
+    }
+}
+
 /// a deterministic value of R derived from a label (method name + Debug of the arguments)
 pub fn derived<R: Gen>(label: &str) -> R {
     let h = vcore::src::fnv(label.as_bytes());
     let mut bytes = vec![];
-    let mut x = h;
+    let mut x = h | 1;
     for _ in 0..64 {
         x ^= x << 13;
         x ^= x >> 7;
@@ -125,6 +374,6 @@ pub fn derived<R: Gen>(label: &str) -> R {
         bytes.push((x >> 24) as u8);
     }
     let mut src = Src::new(&bytes);
-    let mut fuel = 8;
+    let mut fuel = 6;
     R::gen(&mut src, &mut fuel)
 }
